@@ -42,6 +42,7 @@ def run(ctx, crate):
     rule_drop_finish_once(ctx, crate)
     rule_iter_finish(ctx, crate)
     rule_is_finished(ctx, crate)
+    rule_on_finish_writers(ctx, crate)
     D.rule_finished_draws_forced(ctx, crate)
 
 
@@ -352,3 +353,34 @@ def rule_is_finished(ctx, crate, rule="R-IS-FINISHED"):
             ctx.check(vals == {want}, rule, "status:%s" % v, b.name, K.fn_loc(b), "is_finished() == %s for Status::%s" % (want, v),
                       "is_finished() returns %s for Status::%s" % (sorted(vals), v), cfg)
     ctx.floor(rule, n, 3, cfg, "Status arms in is_finished")
+
+
+def rule_on_finish_writers(ctx, crate, rule="R-ON-FINISH-WRITERS"):
+    """The configured finish behaviour is configuration: it is written only by with_finish (and the constructor).
+    Finishing, dropping or resetting a bar must not consume or change it (a bar can be reset and finished again)."""
+    cfg = crate.config
+    allowed = {"progress_bar::ProgressBar::with_finish", "state::BarState::new"}
+    n = 0
+    for b in K.lib_bodies(crate):
+        refs = b.ref_origins()
+        for i, j, s in b.assigns():
+            fs = place_fields(s["lhs"])
+            if fs and fs[-1][0] == "state::BarState" and fs[-1][2] == "on_finish":
+                n += 1
+                ctx.check(K.owner_fn(crate, b) in allowed, rule, "store", b.name, "%s:%d" % (b.file, s.get("line", 0)),
+                          "on_finish stored by with_finish", "on_finish is overwritten outside with_finish (the configured finish behaviour is lost)", cfg)
+        for c in b.calls():
+            if c.matches(*b.REF_FORWARD):
+                continue
+            for a in c.args:
+                l = operand_local(a)
+                if l is None or "&mut" not in b.locals[l]["ty"]:
+                    continue
+                if any("on_finish" in tp for tl, tp in refs.get(l, ())):
+                    n += 1
+                    ctx.check(K.owner_fn(crate, b) in allowed, rule, "mut-borrow:%s" % K.meth(c.path), b.name, c.loc(),
+                              "on_finish mutably borrowed by with_finish only",
+                              "%s takes `&mut on_finish` (e.g. mem::take/replace): finishing consumes the configured behaviour, a reset bar then finishes with the default" % c.path, cfg)
+    for (b, i, j, s) in K.constructions(crate, "state::BarState"):
+        n += 1
+    ctx.floor(rule, n, 2, cfg, "writes of BarState::on_finish")
